@@ -63,11 +63,13 @@ def materialise(case, root):
                     fh.write("}{ not json" if case["cibad"] else doc("info", i))
             n = case["names"]
             files = {}
-            if n in ("cur", "both"):
+            if n in ("cur", "both", "mix_rl"):
                 files["images.json"] = ("images", i)
+            if n in ("cur", "both", "mix_il"):
                 files["rpms.json"] = ("rpms", i)
-            if n in ("leg", "both"):
+            if n in ("leg", "both", "mix_il"):
                 files["image-manifest.json"] = ("images", i + 10)
+            if n in ("leg", "both", "mix_rl"):
                 files["rpm-manifest.json"] = ("rpms", i + 10)
             if n != "none":
                 files["modules.json"] = ("modules", i)
@@ -83,7 +85,7 @@ def evaluate(case):
     root = tempfile.mkdtemp(prefix="verif-c20-")
     fails = []
     what = "layout %s names=%s content=%s cibad=%s slash=%s" % (json.dumps(case["st"], sort_keys=True), case["names"], case["content"],
-                                                                case["cibad"], case["slash"])
+                                                                case["cibad"], case["slash"]) + (" reversed-access" if case.get("rev") else "")
     try:
         path = materialise(case, root)
         arg = path + ("/" if case["slash"] else "")
@@ -98,7 +100,10 @@ def evaluate(case):
                                                                                          sorted(os.path.relpath(a, root) for a in allowed))]
         d = allowed[got]
         exp = case["exp"][d]
-        for kind in ("info", "images", "rpms", "modules"):
+        order = ("info", "images", "rpms", "modules")
+        if case.get("rev"):
+            order = tuple(reversed(order))
+        for kind in order:
             e = exp[kind]
             try:
                 obj = getattr(c, kind)
@@ -131,6 +136,13 @@ def evaluate(case):
                 if out == "doc":
                     fails.append("%s: .%s returned an object although the file is %s" % (what, kind, e["out"]))
                     continue
+                try:                   # a failed load must not be cached: the next access raises again
+                    getattr(c, kind)
+                    fails.append("%s: second access to .%s returned an object after the first raised RuntimeError (file %s)" % (what, kind, e["out"]))
+                except RuntimeError:
+                    pass
+                except Exception as exc:
+                    fails.append("%s: second access to .%s raised %s" % (what, kind, type(exc).__name__))
                 msg = str(err)
                 if e["out"] == "missing":
                     if got not in msg and arg.rstrip("/") not in msg:
